@@ -410,6 +410,76 @@ def d9_priors(ctx, fits):
     ctx.check(rule, 'fits.py:least_squares#no-priors', ok, 'without priors all prior vectors are empty', 'no-prior defaults differ')
 
 
+def d10_objectives(ctx, fits):
+    """every minimiser branch: stage 1 minimises the uncorrelated objective from the initial guess; for correlated fits a second stage
+    minimises the correlated objective starting from the stage-1 solution (sibling rule over migrad / scipy.minimize / Levenberg-Marquardt)"""
+    rule = 'C07-D10'
+    f = fits.func('least_squares')
+    calls = []
+    for c in walk(f):
+        if isinstance(c, ast.Call):
+            d = fits.dotted(c.func) or ''
+            if d in ('iminuit.minimize', 'scipy.optimize.minimize', 'scipy.optimize.least_squares') and len(c.args) >= 2:
+                calls.append((d, c))
+    ctx.floor('minimiser calls in least_squares', len(calls), 6)
+
+    def objective_kind(e):
+        """'corr' / 'uncorr' for the objective expression"""
+        if not isinstance(e, ast.Name):
+            return None
+        nm = e.id
+        if nm in ('chisqfunc_uncorr',):
+            return 'uncorr'
+        if nm == 'chisqfunc':
+            return 'corr'          # bound to the correlated cost function inside the correlated branch (alias of the uncorrelated one otherwise)
+        for q, nd in fits.functions():
+            if q == 'least_squares.' + nm:
+                body = unparse(nd)
+                if 'general_chisqfunc_uncorr(' in body:
+                    return 'uncorr'
+                if 'general_chisqfunc(' in body:
+                    return 'corr'
+        return None
+    per_branch = {}
+    for d, c in calls:
+        corr_guard = any(pol and unparse(t) == "kwargs.get('correlated_fit') is True" for t, pol in guards_of(fits, c, stop=f))
+        kind = objective_kind(c.args[0])
+        start = unparse(c.args[1])
+        key = 'fits.py:least_squares#%s[%s]' % (d.split('.', 1)[-1], 'refinement for correlated fits' if corr_guard else 'first stage')
+        per_branch.setdefault(d, []).append(corr_guard)
+        if kind is None:
+            ctx.unrec(rule, key, 'cannot classify the objective %s' % unparse(c.args[0]), fits.loc(c))
+            continue
+        if corr_guard:
+            ctx.check(rule, key, kind == 'corr' and start == 'fit_result.x', 'correlated fits are refined with the correlated chi-square, starting from the first-stage solution',
+                      'under correlated_fit the minimiser %s is given the %s objective `%s` (start %s): the returned parameters do not minimise the correlated chi-square' % (
+                          d, 'uncorrelated' if kind == 'uncorr' else kind, unparse(c.args[0]), start), fits.loc(c))
+        else:
+            ctx.check(rule, key, kind == 'uncorr' and start == 'x0', 'first stage: uncorrelated chi-square from the initial guess', 'first stage uses %s from %s' % (unparse(c.args[0]), start), fits.loc(c))
+    for d, gs in per_branch.items():
+        ctx.check(rule, 'fits.py:least_squares#%s-two-stages' % d.split('.', 1)[-1], sorted(gs) == [False, True], 'has a first stage and a correlated refinement', 'stages found: %s' % gs)
+    # the alias in the uncorrelated case and the definitions in the correlated case
+    al = [s_ for s_ in statements(f) if isinstance(s_, ast.Assign) and unparse(s_.targets[0]) in ('chisqfunc', 'general_chisqfunc') and isinstance(s_.value, ast.Name)]
+    vals = sorted((unparse(s_.targets[0]), s_.value.id) for s_ in al)
+    okg = all(any((not pol) and unparse(t) == "kwargs.get('correlated_fit') is True" for t, pol in guards_of(fits, s_, stop=f)) for s_ in al)
+    ctx.check(rule, 'fits.py:least_squares#uncorrelated-alias', vals == [('chisqfunc', 'chisqfunc_uncorr'), ('general_chisqfunc', 'general_chisqfunc_uncorr')] and okg,
+              'without correlated_fit the generic names are aliases of the uncorrelated functions', 'aliases %s' % vals)
+    # the reported chi-square is that of the last minimisation
+    cs = [s_ for s_ in statements(f) if isinstance(s_, ast.Assign) and unparse(s_.targets[0]) == 'chisquare']
+
+    def lm_branch(node):
+        for t, pol in guards_of(fits, node, stop=f):
+            if 'Levenberg-Marquardt' in unparse(t):
+                return pol
+        return None
+    ok = bool(cs)
+    for s_ in cs:
+        same = [c for d, c in calls if lm_branch(c) == lm_branch(s_)]
+        if not same or s_.lineno <= max(c.lineno for c in same):
+            ok = False
+    ctx.check(rule, 'fits.py:least_squares#chisquare-after-refinement', ok, 'chi-square is taken from the final minimisation of its branch', 'chisquare is read before the refinement')
+
+
 def d7_corrfit(ctx):
     rule = 'C07-D7'
     cm = ctx.repo.mod('correlators')
@@ -455,6 +525,10 @@ def run(ctx):
     ctx.guarded('C07-D7', 'correlators.py:Corr.fit', d7_corrfit, ctx)
     ctx.rule('C07-D9', 'prior bookkeeping (positions, order, validation)')
     ctx.guarded('C07-D9', 'fits.py:least_squares@priors', d9_priors, ctx, fits)
+    from . import C19
+    ctx.guarded('C07-D9', 'fits.py:_extract_val_and_dval', C19.d2_prior, ctx, 'C07-D9')
+    ctx.rule('C07-D10', 'minimiser objectives: uncorrelated first stage, correlated refinement (sibling rule)')
+    ctx.guarded('C07-D10', 'fits.py:least_squares@objectives', d10_objectives, ctx, fits)
 
 
 SELFTEST = [
@@ -476,5 +550,7 @@ SELFTEST = [
     ('compact-closure-data', 'pyerrors/fits.py', "general_chisqfunc(d[:n_parms], d[n_parms: n_parms + len_y], d[n_parms + len_y:])", "general_chisqfunc(d[:n_parms], y_f, d[n_parms + len_y:])", 'C07-D1'),
     ('prior-mask-shift', 'pyerrors/fits.py', "            prior_mask = np.arange(len(priors))", "            prior_mask = np.arange(1, len(priors) + 1) % len(priors)", 'C07-D9'),
     ('prior-range-check', 'pyerrors/fits.py', "            if max(prior_mask) >= n_parms:", "            if max(prior_mask) > n_parms:", 'C07-D9'),
+    ('scipy-refinement-uncorr', 'pyerrors/fits.py', "fit_result = scipy.optimize.minimize(chisqfunc, fit_result.x, method=kwargs.get('method'), tol=tolerance)", "fit_result = scipy.optimize.minimize(chisqfunc_uncorr, fit_result.x, method=kwargs.get('method'), tol=tolerance)", 'C07-D10'),
+    ('lm-refinement-restart', 'pyerrors/fits.py', "fit_result = scipy.optimize.least_squares(chisqfunc_residuals, fit_result.x, method='lm'", "fit_result = scipy.optimize.least_squares(chisqfunc_residuals_uncorr, fit_result.x, method='lm'", 'C07-D10'),
     ('benign-dof-reorder', 'pyerrors/fits.py', "output.dof = y_all.shape[-1] - n_parms + len(loc_priors)", "output.dof = len(loc_priors) + y_all.shape[-1] - n_parms", 'BENIGN'),
 ]
